@@ -50,9 +50,11 @@ Env == <<
   \* names that are special for JavaScript objects (Object.prototype members) and for String.replace ($$ patterns)
   [n |-> "toString", kind |-> "type", ty |-> O1("t", TNumber)],
   [n |-> "A$$B",   kind |-> "type", ty |-> O1("d", TNumber)],
-  [n |-> "HN",     kind |-> "type", ty |-> O2("p", Ref("toString"), "q", Ref("A$$B"))]
+  [n |-> "HN",     kind |-> "type", ty |-> O2("p", Ref("toString"), "q", Ref("A$$B"))],
+  \* documented references to a named type (the description belongs to the referring site, not to the definition)
+  [n |-> "HJ",     kind |-> "type", ty |-> O2("home", Deco("jsdoc", Ref("VB")), "work", Deco("jsdoc", Ref("VB")))]
 >>
-Parsers == {"Tree", "A", "B", "U", "Holder", "Inline", "VA", "Bad", "P2", "VD", "UD", "InlineD", "HD", "VB", "A2", "PB2", "HN"}
+Parsers == {"Tree", "A", "B", "U", "Holder", "Inline", "VA", "Bad", "P2", "VD", "UD", "InlineD", "HD", "VB", "A2", "PB2", "HN", "HJ"}
 \* configuration with namedTypeSchemaOverrides: VA is printed as VAo
 Overrides == [VA |-> "VAo"]
 Names == {Env[i].n : i \in DOMAIN Env}
@@ -110,6 +112,7 @@ Visit(T, st, useOv, ovs) ==
     [] T.t = "arr"   -> Visit(T.e, st, TRUE, ovs)
     [] T.t = "tuple" -> VisitSeq(T.es \o T.r, 1, st, TRUE, ovs)
     [] T.t = "obj"   -> VisitSeq([i \in DOMAIN T.ps |-> T.ps[i].ty] \o [i \in DOMAIN T.ix |-> T.ix[i].vt], 1, st, TRUE, ovs)
+    [] T.t = "deco"  -> Visit(T.a, st, useOv, ovs)
     [] OTHER -> st
 VisitSeq(ts, i, st, useOv, ovs) ==
   IF i > Len(ts) \/ st.err THEN st
@@ -154,6 +157,7 @@ RefsIn(T) ==
     [] T.t = "arr" -> RefsIn(T.e)
     [] T.t = "tuple" -> UNION {RefsIn((T.es \o T.r)[i]) : i \in DOMAIN (T.es \o T.r)}
     [] T.t = "obj" -> UNION ({RefsIn(T.ps[i].ty) : i \in DOMAIN T.ps} \cup {RefsIn(T.ix[i].vt) : i \in DOMAIN T.ix})
+    [] T.t = "deco" -> RefsIn(T.a)
     [] OTHER -> {}
 BodyFor(n, src) == IF src = "override" THEN Ref(Overrides[n]) ELSE Lookup(Env, n)
 BodyOf(n) == BodyFor(n, ctx.col[n])
